@@ -166,6 +166,10 @@ def get_txt_pos_ml(toks, main_lang, parms):
             cur_sec.append(t)
             continue
         if t.lang == lang_stack[-1]:
+            if not (t.back or t.hard):
+                # same language again: no new section, but the token that
+                # closes this switch will pop the stack
+                lang_stack.append(t.lang)
             continue
         txt, pos = get_txt_pos(cur_sec)
         cur_sec = []
